@@ -30,8 +30,9 @@ class Chunk:
 
 
 class Module:
-    def __init__(self, unit, name, file=None, uses='', vis='pub'):
+    def __init__(self, unit, name, file=None, uses='', vis='pub', parent=None):
         self.unit, self.name, self.file, self.uses, self.vis = unit, name, file, uses, vis
+        self.qual = ((parent.qual + '::') if (parent is not None and parent.qual) else '') + name
         self.chunks = []
         self.sub = []
 
@@ -48,7 +49,7 @@ class Module:
         sf = self.sf(file)
         path = sel if isinstance(sel, list) else [sel]
         it = sf.find(path)
-        where = '%s::%s' % (self.name, path[-1])
+        where = '%s::%s' % (self.qual, path[-1])
         toks = sf.toks
         ed = Edits(sf, toks[it.attr_lo].start, toks[it.hi - 1].end)
         froms = []
@@ -86,7 +87,7 @@ class Module:
 
     def _emit_fn(self, sf, it, spec, prefix, allow_canary=True):
         name = (spec.rename if spec and spec.rename else it.name)
-        label = '%s::%s%s' % (self.name, prefix, name)
+        label = ('%s::%s%s' % (self.qual, prefix, name)) if self.qual else (prefix + name)
         text = weave_fn(sf, it, spec, self.unit.log, label)
         kind = 'fn'
         if spec is not None and spec.mode == 'assumed':
@@ -150,7 +151,7 @@ class Module:
         for c in it.children:
             if c.kind == 'fn':
                 sp = specs.get(c.name)
-                label = '%s::%s::%s' % (self.name, it.name, c.name)
+                label = '%s::%s::%s' % (self.qual, it.name, c.name)
                 text = weave_fn(sf, c, sp, self.unit.log, label)
                 self.chunks.append(Chunk(text + '\n', label, 'traitfn', sp))
             else:
@@ -246,7 +247,7 @@ class Unit:
         self.prelude = []
 
     def module(self, name, file=None, uses='', parent=None, vis='pub'):
-        m = Module(self, name, file, uses, vis)
+        m = Module(self, name, file, uses, vis, parent)
         (parent.sub if parent else self.modules).append(m)
         return m
 
